@@ -123,8 +123,9 @@ func init() {
 		}
 		all := 1 << universeSize
 		// exhaustive: every current alphabet of size 1..7, every main-network list at least that large,
-		// inner ring = alphabet + up to 2 extra keys (quick: one pseudo-random extra set per pair,
-		// thorough: every extra set)
+		// inner ring = alphabet + up to 2 extra keys (quick: a sixteenth of the pairs with one
+		// pseudo-random extra set, thorough: every pair with one extra set; the Coq theorem
+		// C36_alphabet_universe8 covers every pair on the model)
 		for a := 1; a < all-1; a++ {
 			for b := 0; b < all; b++ {
 				if bits.OnesCount(uint(b)) < bits.OnesCount(uint(a)) {
@@ -141,20 +142,23 @@ func init() {
 					}
 				}
 				if thorough() {
-					for _, e := range extras {
-						emit(fs, mn, append(append([]int{}, fs...), e...), "exhaustive")
+					// every pair, one extra set each
+					for k := 0; k < 1; k++ {
+						e := extras[r.n(uint64(len(extras)))]
+						emit(shuffle(r, fs), shuffle(r, mn), shuffle(r, append(append([]int{}, fs...), e...)), "all-pairs")
 					}
-				} else {
+				} else if r.n(16) == 0 {
+					// a sixteenth of the pairs, one extra set each
 					e := extras[r.n(uint64(len(extras)))]
-					emit(shuffle(r, fs), shuffle(r, mn), shuffle(r, append(append([]int{}, fs...), e...)), "exhaustive-pairs")
+					emit(shuffle(r, fs), shuffle(r, mn), shuffle(r, append(append([]int{}, fs...), e...)), "sampled-pairs")
 				}
 			}
 		}
 		// malformed / out-of-contract stream: duplicates, short main-network lists, empty lists,
 		// inner ring lists that miss alphabet keys
-		n := 1500
+		n := 600
 		if thorough() {
-			n = 20000
+			n = 5000
 		}
 		for i := 0; i < n; i++ {
 			rl := func(max int) []int {
